@@ -74,6 +74,30 @@ class CustomError(Exception):
     pass
 
 
+class UnhashableError(Exception):
+    """An exception class that defines equality and is therefore unhashable (what a plain @dataclass error class is)."""
+
+    def __init__(self, msg):
+        super().__init__(msg)
+        self.msg = msg
+
+    def __eq__(self, other):
+        return isinstance(other, UnhashableError) and other.msg == self.msg
+
+    __hash__ = None  # type: ignore[assignment]
+
+
+class TwoArgError(Exception):
+    """Cannot be re-created from a message string alone; str() of it is not its constructor argument."""
+
+    def __init__(self, code, detail):
+        super().__init__(code, detail)
+        self.code, self.detail = code, detail
+
+    def __str__(self):
+        return f'[{self.code}] {self.detail}'
+
+
 EXC = {
     'ValueError': ValueError,
     'KeyError': KeyError,
@@ -90,7 +114,19 @@ def make_exc(kind: str, label: str) -> BaseException:
         return RuntimeError('Event loop is closed')
     if kind == 'NoLoop':
         return RuntimeError('no running event loop')
+    if kind == 'Unhashable':
+        return UnhashableError(f'{kind}@{label}')
+    if kind == 'TwoArg':
+        return TwoArgError(7, f'{kind}@{label}')
+    if kind == 'Chained':  # carries an explicit cause (raise X from Y)
+        ex = CustomError(f'{kind}@{label}')
+        ex.__cause__ = ValueError('root cause')
+        return ex
     return EXC[kind](f'{kind}@{label}')
+
+
+class _Opaque:
+    pass
 
 
 def _payload(x):
@@ -99,6 +135,12 @@ def _payload(x):
     if isinstance(x, dict):
         if set(x) == {'$dt'}:
             return _dt.datetime.fromisoformat(x['$dt'])
+        if set(x) == {'$bytes'}:
+            return bytes.fromhex(x['$bytes'])  # e.g. 'fffe': not valid UTF-8, has no JSON encoding
+        if set(x) == {'$obj'}:
+            return _Opaque()  # an arbitrary object: no JSON encoding
+        if set(x) == {'$surrogate'}:
+            return 'lone \ud800 surrogate'  # cannot be encoded as UTF-8
         return {k: _payload(v) for k, v in x.items()}
     if isinstance(x, list):
         return [_payload(v) for v in x]
@@ -149,7 +191,14 @@ def _traced_get_nowait(q):
     if run is not None:
         bus = getattr(q, '_vbus', None)
         if bus is not None:
-            run.rec('deq', bus=bus, ev=run.tag_of(item), by=run.party())
+            by = run.party()
+            # was the event this party is currently awaiting already complete when its drain took another queue entry?
+            aw = run.open_await.get(by)
+            done = None
+            if aw:
+                sig = aw[-1]._event_completed_signal
+                done = bool(sig is not None and sig.is_set())
+            run.rec('deq', bus=bus, ev=run.tag_of(item), by=by, awaited_done=done)
     return item
 
 
@@ -251,6 +300,7 @@ class Run:
         self.spawned: list[asyncio.Task] = []
         self.n_gather = 0
         self.actor_cur: dict = {}
+        self.open_await: dict = {}
         self.actor_tasks: list[asyncio.Task] = []
         self.actor_state: dict[int, Any] = {}
         self.actor_events: dict[int, list] = {}
@@ -383,7 +433,7 @@ class Run:
             b._run = self
             b._idx = i
             self.buses[i] = b
-            self.rec('bus_new', bus=i, by=self.party())
+            self.rec('bus_new', bus=i, by=self.party(), name=b.name)
             self._install(i)
         return self.buses[i]
 
@@ -507,12 +557,14 @@ class Run:
         self.rec('aw_begin', by=by, ev=tag)
         exc = None
         r = None
+        self.open_await.setdefault(by, []).append(e)
         try:
             r = await e
         except BaseException as ex:
             exc = type(ex).__name__
             raise
         finally:
+            self.open_await[by].remove(e)
             self.rec('aw_end', by=by, ev=tag, exc=exc, same=r is e, why=self.complete(tag) if exc is None else None, snap=self.snap(e))
 
     async def _prog(self, ops, by, event, parent_tag, is_handler: bool):
@@ -1136,6 +1188,11 @@ def run_scenario(sc: dict, workdir: str | None = None, keep_run: bool = False):
                 except Exception:
                     pass
         left = hard_close(loop)
+        if sc.get('second_loop') and hang is None and run.final is not None:
+            try:
+                run.final['second_loop'] = _second_loop(run, seed)
+            except BaseException as ex:  # noqa: BLE001
+                run.final['second_loop'] = [{'error': type(ex).__name__}]
         restore_io()
         _RUN = None
         lg.removeHandler(run.log)
@@ -1150,6 +1207,42 @@ def run_scenario(sc: dict, workdir: str | None = None, keep_run: bool = False):
     run.events.clear()
     run.buses.clear()
     return tr, final, meta
+
+
+def _second_loop(run: 'Run', seed: int) -> list:
+    """The program goes on in a second event loop (a second asyncio.run()): every event that was complete when the first loop
+    ended is looked at again from there - completion signal, status, results - and awaited."""
+    out: list = []
+    loop2 = VLoop(seed=seed + 1, horizon=200.0, max_steps=200_000)
+    asyncio.set_event_loop(loop2)
+
+    async def look():
+        for tag, e in list(run.events.items()):
+            f = run.final['events'].get(tag)
+            if not f or not f.get('sig'):
+                continue
+            rec = {'ev': tag, 'snap_before': f['snap']}
+            try:
+                sig = e.event_completed_signal
+                rec['sig'] = bool(sig is not None and sig.is_set())
+            except BaseException as ex:  # noqa: BLE001
+                rec['sig'] = type(ex).__name__
+            try:
+                r = await asyncio.wait_for(e, 5.0)
+                rec['await'] = 'same' if r is e else 'other'
+            except BaseException as ex:  # noqa: BLE001
+                rec['await'] = type(ex).__name__
+            rec['status'] = e.event_status
+            rec['snap'] = run.snap(e)
+            out.append(rec)
+
+    try:
+        loop2.run_until_complete(look())
+    except Hang as h:
+        out.append({'error': 'hang:' + h.kind})
+    finally:
+        hard_close(loop2)
+    return out
 
 
 def _install_io_fault(fault, run):
